@@ -14,6 +14,9 @@ SRC = 'C11/h_ooo.cpp'
 def jobs(tier):
     q = tier == 'quick'
     J = []
-    J.append(ksjob('ooo_1resp_deadline', SRC, 2, 5, ['NRESP=1', 'YIELD_IN_COMPLETION'], desc='2 callers, 1 response for either caller (or an unknown tag), blocking header and body reads, deadlines may fall at any blocking point', stuck_legal=True, timeout=1200, unwind=2, mem_gb=10))
-    J.append(ksjob('ooo_2callers', SRC, 2, 7, ['NRESP=2'], desc='2 callers, <= 2 responses, symbolic order / deadlines, blocking point inside do_collect', stuck_legal=True, timeout=1200, unwind=3, mem_gb=10))
+    J.append(ksjob('ooo_1resp_deadline', SRC, 2, 5, ['NRESP=1', 'YIELD_IN_COMPLETION'], desc='2 callers, 1 response for either caller (or an unknown tag) then the stream fails, blocking header and body reads, '
+                   'per-call deadline never / finite falling at any blocking point', stuck_legal=True, timeout=1500, unwind=2, mem_gb=8))
+    if not q:
+        J.append(ksjob('ooo_2resp', SRC, 2, 7, ['NRESP=2', 'YIELD_IN_COMPLETION'], desc='2 callers, <= 2 responses in any order (own, the other caller\'s, unknown tag), blocking header and body reads, symbolic deadlines',
+                       stuck_legal=True, timeout=6000, unwind=3, mem_gb=30))
     return J
